@@ -132,9 +132,9 @@ fn b_prim2() -> RecordBatch {
 }
 fn b_str() -> RecordBatch {
     batch(vec![
-        ("s", Arc::new(StringArray::from(vec![Some("alpha"), None, Some(""), Some("d\u{e9}j\u{e0}")])), true),
+        ("s", Arc::new(StringArray::from(vec![Some("\u{e9}t\u{e9}"), None, Some(""), Some("d\u{e9}j\u{e0}")])), true),
         ("y", Arc::new(BinaryArray::from(vec![Some(&b"\x00\xff"[..]), Some(&b""[..]), None, Some(&b"xyz"[..])])), true),
-        ("l", Arc::new(LargeStringArray::from(vec!["p", "qq", "rrr", ""])), false),
+        ("l", Arc::new(LargeStringArray::from(vec!["\u{fc}", "qq", "rrr", ""])), false),
     ])
 }
 fn b_dict() -> RecordBatch {
